@@ -763,7 +763,26 @@ def _execute(trace, probes, scratch):
         _check_no_escape(exc, tuple(allowed), f'{fmt} {rp.get("mode", "for")}')
         views = [record_view(r, fmt) for r in out]
         if rp.get('remap'):
-            continue   # renumbered on purpose; only the no-escape and liveness oracles apply
+            # documented knob "Remap atom numbers started from one": molecules must come back numbered 1..n in file order with
+            # everything else unchanged (reactions are renumbered across members; only no-escape and liveness apply to them)
+            if not faulty and exc is None and fmt != 'mrv':
+                if len(views) != len(expected):
+                    raise Violation('roundtrip-mismatch:count', f'{fmt} remap=True: wrote {len(expected)} records, read {len(views)}')
+                for i, (e, a) in enumerate(zip(expected, views)):
+                    if e.get('kind') != 'mol' or a.get('kind') != 'mol':
+                        continue
+                    mp = {n: k for k, (n, *_) in enumerate(e['atoms'], start=1)}
+                    want = dict(e)
+                    want['atoms'] = [(mp[n], *rest) for n, *rest in e['atoms']]
+                    want['bonds'] = sorted((min(mp[x], mp[y]), max(mp[x], mp[y]), o) for x, y, o in e['bonds'])
+                    want['stereo'] = None
+                    got = dict(a)
+                    got['stereo'] = None
+                    d = compare_views(want, got)
+                    if d:
+                        raise Violation(f'roundtrip-mismatch:{diff_field(d)}', f'{fmt} remap=True record {i}: {d}')
+                    probes['remap_roundtrips_equal'] += 1
+            continue
         partial = exc is not None
         if not faulty and not partial:
             if len(views) != len(expected):
@@ -1084,6 +1103,8 @@ def generate(seed):
               'via': s.choice(['wrapper', 'open', 'open', 'pathlib'])}
         if s.random() < 0.4:
             rp['chunk'] = s.choice([1, 3, 7, 64, 511])
+        if mode == 'clean' and s.random() < 0.15:
+            rp['remap'] = True
         if mode == 'readfault':
             r = f.random()
             if r < 0.5:
